@@ -20,7 +20,8 @@ ASSUMPTIONS = [
 N_Z1 = 5097
 N_Z3 = 10000
 N_Z7 = 20000
-N_CASES = N_Z1 + N_Z3 + N_Z7
+N_HS = 4000  # heading sequences: 2-6 headings over levels 1-4 with texts from a two-word vocabulary (hierarchy rules)
+N_CASES = N_Z1 + N_Z3 + N_Z7 + N_HS
 
 
 def universe_hash():
@@ -34,10 +35,10 @@ def plan(tier, seed, complete=False):
         from vf.prng import R, mix
 
         r = R(mix("C06", seed))
-        idx = sorted(set(r.sample(N_Z1, 550)) | {N_Z1 + k for k in r.sample(N_Z3, 500)} | {N_Z1 + N_Z3 + k for k in r.sample(N_Z7, 750)})
+        idx = sorted(set(r.sample(N_Z1, 550)) | {N_Z1 + k for k in r.sample(N_Z3, 500)} | {N_Z1 + N_Z3 + k for k in r.sample(N_Z7, 700)} | {N_Z1 + N_Z3 + N_Z7 + k for k in r.sample(N_HS, 200)})
     return {
         "items": [f"R:{i}" for i in idx],
-        "zones": {"corpus": {"universe": N_Z1}, "rule-trigger documents (Z7)": {"universe": N_Z7}, "calm trees (every second one sprayed with long lines / trailing spaces / tabs / blank runs)": {"universe": N_Z3}, "run": {"documents": len(idx)}},
+        "zones": {"corpus": {"universe": N_Z1}, "rule-trigger documents (Z7)": {"universe": N_Z7}, "heading sequences": {"universe": N_HS}, "calm trees (every second one sprayed with long lines / trailing spaces / tabs / blank runs)": {"universe": N_Z3}, "run": {"documents": len(idx)}},
         "exhaustive": False,
         "rule": "document x rule (23 rules with a crisp documented condition) x that rule's documented configuration values (index-chosen subset per document); "
         "distinct = distinct (rule, configuration, document) triples in which the oracle demanded at least one report",
@@ -53,7 +54,25 @@ def replay_item(rp):
     return {"key": str(rp["case"]), "case": str(rp["case"])}
 
 
+def heading_sequence(j):
+    r = PR(0x06500000 + j)
+    n = r.randint(2, 6)
+    out = []
+    for _ in range(n):
+        lvl = r.randint(1, 4)
+        text = r.choice(["Alpha", "Beta", "Alpha", "Gamma delta"])
+        if lvl <= 2 and r.chance(0.06):
+            out += [text, "=" * 5 if lvl == 1 else "-" * 5, ""]
+        else:
+            out += ["#" * lvl + " " + text, ""]
+        if r.chance(0.3):
+            out += ["some text", ""]
+    return "\n".join(out)
+
+
 def case_doc(i):
+    if i >= N_Z1 + N_Z3 + N_Z7:
+        return heading_sequence(i - N_Z1 - N_Z3 - N_Z7)
     if i < N_Z1:
         return U.doc("Z1", i)
     if i >= N_Z1 + N_Z3:
